@@ -212,7 +212,7 @@ func playScript(rng *Rng, victim string, cfg hsCfg, joinID string, steps []advSt
 	select {
 	case <-done:
 	case <-time.After(5 * time.Second):
-		out.err = fmt.Errorf("harness: victim did not return")
+		out.err = fmt.Errorf("harness timeout: victim did not return")
 	}
 	return out, final
 }
@@ -437,6 +437,14 @@ func runAdversary(c *Ctx, rec []*hsSession) {
 	var lines []string
 	for _, j := range jobs {
 		run, final := playScript(rng, j.victim, victim, j.joinID.val, j.steps)
+		for try := 0; try < 2 && isTimeout(run.err); try++ {
+			r.Count("adv.retried-after-timeout")
+			run, final = playScript(rng, j.victim, victim, j.joinID.val, j.steps)
+		}
+		if isTimeout(run.err) {
+			r.Count("adv.inconclusive-timeout")
+			continue
+		}
 		// the model sees the messages actually sent (a raw step = the connection breaks there)
 		var syms []string
 		for _, st := range final {
@@ -522,8 +530,20 @@ func runAdversary(c *Ctx, rec []*hsSession) {
 		if rn.run.err == nil {
 			sig := "C15/handshake-completed-without-cookie"
 			what := fmt.Sprintf("%s completed for a peer that does not know the cookie (%s)", rn.j.victim, rn.j.what)
+			var jst *advStep
 			if rn.j.victim == "accept" && len(rn.final) > 0 && rn.final[0].kind == "join" {
-				st := rn.final[0]
+				jst = &rn.final[0]
+			}
+			if rn.j.victim == "accept" && len(rn.final) > 0 && rn.final[0].kind == "raw" {
+				// damaged bytes that still decode to a Join (a bit flipped in a part no digest covers, e.g. the node name)
+				if ms, _ := splitFrames(rn.final[0].raw); len(ms) > 0 {
+					if jm, ok := ms[0].(handshake.MessageJoin); ok {
+						jst = &advStep{kind: "join", f: []sf{{"?", jm.ConnectionID}, {"?", jm.Salt}, {"?", jm.Digest}}}
+					}
+				}
+			}
+			if jst != nil {
+				st := *jst
 				sig = "C15/join-forged"
 				for _, j := range pool.joins {
 					if st.f[0].val == j[0].val && st.f[1].val == j[1].val && st.f[2].val == j[2].val {
@@ -552,7 +572,7 @@ func runAdversary(c *Ctx, rec []*hsSession) {
 		f := strings.Fields(out[i])
 		if len(f) != 2 {
 			r.Disagree("c15-adv", "model output "+out[i], cs)
-			return
+			continue
 		}
 		mres := f[0]
 		if strings.HasPrefix(mres, "ok,") {
@@ -560,7 +580,7 @@ func runAdversary(c *Ctx, rec []*hsSession) {
 		}
 		if mres != got {
 			r.Disagree("c15-adv", fmt.Sprintf("%s: model %s, implementation %s (%v)", rn.j.victim, f[0], got, rn.run.err), cs)
-			return
+			continue
 		}
 		if strings.HasPrefix(f[0], "ok,") && rn.j.victim == "accept" {
 			b := &bindings{nonce: nonceOf(0), cookie: hsCookies}
@@ -568,7 +588,7 @@ func runAdversary(c *Ctx, rec []*hsSession) {
 			want, e := b.evalField(exp[1])
 			if e != nil || want != rn.run.res.ConnectionID || fmt.Sprint(nameNum(rn.run.res.Peer)) != exp[2] {
 				r.Disagree("c15-adv", fmt.Sprintf("join result: model %s, implementation id=%q peer=%s (%v)", f[0], rn.run.res.ConnectionID, rn.run.res.Peer, e), cs)
-				return
+				continue
 			}
 		}
 		// what the victim sent: digests recomputed from the model's terms
@@ -593,12 +613,12 @@ func runAdversary(c *Ctx, rec []*hsSession) {
 		if sent != "-" && len(strings.Split(sent, "|")) == len(rn.run.replies) {
 			if e := cmpMsgs(sent, rn.run.replies, b); e != "" {
 				r.Disagree("c15-adv", "victim's messages: "+e, cs)
-				return
+				continue
 			}
 			r.CountN("hs.digests-compared-bytewise", strings.Count(sent, "H("))
 		} else if sent == "-" && len(rn.run.replies) > 0 || sent != "-" && len(strings.Split(sent, "|")) < len(rn.run.replies) {
 			r.Disagree("c15-adv", fmt.Sprintf("victim sent %d messages, model %s", len(rn.run.replies), sent), cs)
-			return
+			continue
 		}
 		if i == 0 || i == len(rans)/2 {
 			r.Sample(map[string]interface{}{"part": "hs-adversary", "case": cs, "model": out[i]})
